@@ -22,7 +22,7 @@ fn nest_doc(rng: &mut Rng, quick: bool) -> (DocSpec, &'static str) {
         ("<font color=red>", "</font>", 20_000, "font"),
         ("<x-y>", "</x-y>", 100_000, "unknown"),
         ("<ins>", "</ins>", 100_000, "ins"),
-        ("<table><tr><td>", "</td></tr></table>", 30_000, "table"),
+        ("<table><tr><td>", "</td></tr></table>", 3_000, "table"),
         ("<div>", "</div>", 3_000, "div"),
         ("<ul><li>", "</li></ul>", 3_000, "ul"),
         ("<ol start=5><li>", "</li></ol>", 3_000, "ol"),
@@ -356,7 +356,7 @@ pub fn generate(run_seed: u64, quick: bool) -> Scenario {
 
     // Selector matching is legitimately quadratic in nesting depth when a
     // descendant selector has to walk to the root for every element (N x d/2
-    // steps; 2*10^8 at d = 20000).  Deep nests combined with CSS keep d <= 1000 so
+    // steps; 2*10^8 at d = 20000).  Deep nests combined with CSS keep d <= 500 so
     // that such work stays far below the fuel; the linear deep-selector case
     // lives in the corpus (selector-descendant-deep-recursion).
     let has_css = !config.css.is_empty()
@@ -366,9 +366,9 @@ pub fn generate(run_seed: u64, quick: bool) -> Scenario {
         });
     if has_css {
         if let DocSpec::Nest { depth, closes, .. } = &mut doc {
-            if *depth > 1000 {
-                *depth = 1000;
-                *closes = (*closes).min(1000);
+            if *depth > 500 {
+                *depth = 500;
+                *closes = (*closes).min(500);
             }
         }
     }
